@@ -162,6 +162,13 @@ def _isinstance1(I, v, kind, what):
             return False
         return False
     if isinstance(v, Num):
+        syms = v.p.symbols()
+        if syms and all(x.startswith("np32:") for x in syms):
+            # a numpy scalar such as np.float32 / np.int64: registered with the numbers ABCs,
+            # an instance of numpy's own scalar classes, but neither int nor float
+            if kind == "ext":
+                return what in ("Number", "Real", "Complex", "object", "number", "generic", "floating", "inexact", "float32")
+            return False
         if kind == "ext":
             if what in ("Number", "Real", "Complex", "object"):
                 return True
@@ -222,7 +229,8 @@ def b_isinstance(I, fv, args, kwargs, node):
     v = I.force(args[0])
     unknown = False
     names = _type_names(I, args[1])
-    if isinstance(v, Num) and {("ext", "int"), ("ext", "float")} <= set(n for n in names if n[0] == "ext"):
+    if isinstance(v, Num) and {("ext", "int"), ("ext", "float")} <= set(n for n in names if n[0] == "ext") \
+            and not (v.p.symbols() and all(x.startswith("np32:") for x in v.p.symbols())):
         return TRUE
     for kind, what in names:
         r = _isinstance1(I, v, kind, what)
@@ -1023,7 +1031,32 @@ def list_method(I, ref, o: AList, name, args, kwargs, node):
     return I.ext_call(Unk(f"list.{name}"), args, kwargs, node)
 
 
-LINE_BREAKS = frozenset("\n\r\x0b\x0c\x1c\x1d\x1e\x85  ")
+LINE_BREAKS = frozenset("\n\r\x0b\x0c\x1c\x1d\x1e\x85\u2028\u2029")
+
+
+def _map_text(I, sv, on_text, on_lit):
+    """Apply a character-removing operation to every part of a composite string."""
+    out = []
+    for p in sv.parts:
+        if isinstance(p, Text):
+            out.append(on_text(p))
+        elif isinstance(p, Lit):
+            out.append(Lit(on_lit(p.text)))
+        elif isinstance(p, StrOf):
+            out.append(on_text(Text(f"str({I.tag(p.value)})")))
+        elif isinstance(p, Fmt):
+            out.append(Fmt(p.template, tuple(_map_value(I, a, on_text, on_lit) for a in p.args)))
+        else:
+            out.append(p)
+    return out
+
+
+def _map_value(I, v, on_text, on_lit):
+    sv = I.as_str(v)
+    if sv is not None:
+        return I.mkstr(_map_text(I, sv, on_text, on_lit))
+    return v
+
 
 
 def str_method(I, recv, name, args, kwargs, node):
@@ -1088,7 +1121,8 @@ def str_method(I, recv, name, args, kwargs, node):
                 if ok:
                     return I.mkstr(parts)
             except ValueError:
-                pass
+                # e.g. "{ {} }".format(x): Python itself rejects the template
+                I.raise_("ValueError", node, note=f"malformed format template {s!r}")
         return Str((Fmt(tmpl, tuple(args)),))
     if name == "join":
         items = _list_items(I, args[0]) if args else None
@@ -1103,44 +1137,43 @@ def str_method(I, recv, name, args, kwargs, node):
                 parts += I.str_parts(x)
             return I.mkstr(parts)
         a = I.force(args[0]) if args else None
-        # " ".join(text.splitlines()) -- a sanitiser idiom
-        if isinstance(a, Unk) and a.typ == "lines":
-            src = a.tag
-            removed = frozenset(LINE_BREAKS)
-            meta = getattr(I, "text_meta", {}).get(src)
-            base_removed = meta if meta else frozenset()
+        # sep.join(text.splitlines()) -- a sanitiser idiom: no line break survives
+        if isinstance(a, LinesV):
             sepv = I.strval(recv)
             if sepv is not None and not (set(sepv) & LINE_BREAKS):
-                return Str((Text(src[len("lines("):-1] if src.startswith("lines(") else src, removed | base_removed),))
+                return I.mkstr(_map_text(I, a.src, lambda t: Text(t.name, t.removed | LINE_BREAKS, t.stripped),
+                                         lambda text: sepv.join(text.splitlines())))
+            # joined with something that may itself contain a line break: nothing is removed
+            return I.mkstr(_map_text(I, a.src, lambda t: Text(t.name, t.removed - LINE_BREAKS, t.stripped), lambda text: text))
         return Unk(f"join({I.tag(recv)},{I.tag(a)})", "str")
     sv = I.as_str(recv)
     if sv is not None:
         if name in ("strip", "rstrip", "lstrip"):
             if len(sv.parts) == 1 and isinstance(sv.parts[0], Text):
                 t = sv.parts[0]
-                return Str((Text(t.name, t.removed, True),))
-            if name == "rstrip" and not args:
+                return Str((Text(t.name, t.removed, True),), name in ("rstrip", "strip") and not args)
+            if name in ("rstrip", "strip") and not args:
                 return Str(sv.parts, True)
             return sv if isinstance(recv, Str) else recv
         if name == "splitlines":
-            if len(sv.parts) == 1 and isinstance(sv.parts[0], Text):
-                t = sv.parts[0]
-                tag = f"lines({t.name})"
-                if not hasattr(I, "text_meta"):
-                    I.text_meta = {}
-                I.text_meta[tag] = t.removed
-                return Unk(tag, "lines")
-            return Unk(f"lines({sv!r})", "lines")
+            return LinesV(sv)
         if name == "replace" and len(args) >= 2:
             old, new = consts[0], consts[1]
-            if len(sv.parts) == 1 and isinstance(sv.parts[0], Text) and old is not None and new is not None:
-                t = sv.parts[0]
-                if len(old) == 1 and old not in new:
-                    return Str((Text(t.name, t.removed | {old}, t.stripped),))
-                if len(old) > 1 and old not in new:
-                    return Str((Text(t.name, t.removed | {"seq:" + old}, t.stripped),))
-                return Str((Text(t.name, t.removed, t.stripped),)) if not (set(new) & LINE_BREAKS) else Unk(f"replace({I.tag(recv)})", "str")
-            return Unk(f"replace({I.tag(recv)},{old!r},{new!r})", "str")
+            if old is None:
+                o = I.force(args[0])
+                old_tag = "val:" + I.tag(o)
+            else:
+                old_tag = old if len(old) == 1 else "seq:" + old
+            if new is None or (old is not None and old in new) or (set(new) & LINE_BREAKS):
+                return Unk(f"replace({I.tag(recv)})", "str")
+            single = len(sv.parts) == 1
+
+            def on_text(t):
+                # a multi-character pattern could straddle two parts of a composite string
+                if old is not None and len(old) > 1 and not single:
+                    return t
+                return Text(t.name, t.removed | {old_tag}, t.stripped)
+            return I.mkstr(_map_text(I, sv, on_text, (lambda text: text.replace(old, new)) if old is not None else (lambda text: text)))
         if name in ("upper", "lower", "title", "capitalize"):
             if len(sv.parts) == 1 and isinstance(sv.parts[0], Text):
                 return recv
